@@ -45,10 +45,15 @@ type cmdCase struct {
 	Prom      bool   `json:"prom"`
 	MaxConn   int    `json:"maxconn"`
 	Hosts     int    `json:"hosts"`
+	HTTP2     bool   `json:"http2"`
+	H2C       bool   `json:"h2c"`
 }
 
 func (c cmdCase) valid() bool {
-	if (c.Server == "tls") != (c.Trust != "na") {
+	if (c.Server == "tls" || c.Server == "tls2") != (c.Trust != "na") {
+		return false
+	}
+	if c.H2C && c.Server != "h2c" {
 		return false
 	}
 	if c.Prom && !(c.Lazy && c.MaxW == 1 && c.Trust != "none" && c.Bad == "none" && c.Timeout == "default") {
@@ -57,10 +62,13 @@ func (c cmdCase) valid() bool {
 	if c.Server == "unix" && (c.ConnectTo || c.LAddr) {
 		return false
 	}
-	if c.ConnectTo && c.Server != "plain" {
+	if c.ConnectTo && (c.H2C || (c.Server != "plain" && c.Server != "h2c")) {
 		return false
 	}
 	if c.Hosts == 2 && !c.ConnectTo {
+		return false
+	}
+	if c.Timeout == "short" && c.MaxConn != 0 {
 		return false
 	}
 	return true
@@ -176,6 +184,12 @@ func (c cmdCase) op(dir string) map[string]any {
 	if c.MaxConn > 0 {
 		args = append(args, "-max-connections", strconv.Itoa(c.MaxConn))
 	}
+	if !c.HTTP2 {
+		args = append(args, "-http2=false")
+	}
+	if c.H2C {
+		args = append(args, "-h2c")
+	}
 	if c.LAddr {
 		args = append(args, "-laddr", "127.0.0.2")
 	}
@@ -219,14 +233,15 @@ func TestDrv_E2E(t *testing.T) {
 	}
 	pick := func(xs ...string) string { return xs[r.Intn(len(xs))] }
 	for n := 0; n < nrand; {
-		c := cmdCase{Server: pick("plain", "plain", "plain", "tls", "unix"), Trust: "na", Format: pick("http", "json"), Lazy: r.Intn(2) == 0,
+		c := cmdCase{HTTP2: r.Intn(4) != 0, Server: pick("plain", "plain", "plain", "tls", "unix", "tls2", "h2c"), Trust: "na", Format: pick("http", "json"), Lazy: r.Intn(2) == 0,
 			Bad: pick("none", "none", "none", "late"), Rate: []int{0, 50, 200}[r.Intn(3)], MaxW: []int{1, 3}[r.Intn(2)], Workers: []int{1, 3}[r.Intn(2)],
 			Name: pick("", "n"), Hdr: r.Intn(2) == 0, Body: r.Intn(2) == 0, Chunked: r.Intn(3) == 0, MaxBody: []int{-1, -1, 0, 2, 9}[r.Intn(5)],
 			Redirects: pick("default", "default", "nofollow"), KeepAlive: r.Intn(4) != 0, Timeout: pick("default", "default", "default", "short"),
 			ConnectTo: r.Intn(3) == 0, LAddr: r.Intn(4) == 0, Prom: r.Intn(4) == 0, MaxConn: []int{0, 0, 1, 2}[r.Intn(4)], Hosts: 1 + r.Intn(2)}
-		if c.Server == "tls" {
+		if c.Server == "tls" || c.Server == "tls2" {
 			c.Trust = pick("insecure", "rootcert", "none")
 		}
+		c.H2C = c.Server == "h2c" && r.Intn(2) == 0
 		if !c.valid() {
 			continue
 		}
@@ -304,6 +319,7 @@ func TestDrv_E2E(t *testing.T) {
 							out = append(out, fmt.Sprint(v))
 						}
 					}
+					sort.Strings(out)
 					return out
 				}
 				host := str(q, "host")
@@ -317,7 +333,7 @@ func TestDrv_E2E(t *testing.T) {
 				num := func(key string) int64 { f, _ := q[key].(float64); return int64(f) }
 				qs = append(qs, KV{"seq": seq, "attack": str(q, "attack"), "method": str(q, "method"), "path": str(q, "path"), "host": host,
 					"flag": vals("X-Flag"), "own": vals("X-Own"), "body": str(q, "body"), "chunked": q["chunked"] == true, "ip": ip,
-					"conn": str(q, "remote"), "tls": q["tls"] == true, "start": num("start_ns") / 1000, "end": num("end_ns") / 1000})
+					"conn": str(q, "remote"), "tls": q["tls"] == true, "proto": str(q, "proto"), "start": num("start_ns") / 1000, "end": num("end_ns") / 1000})
 			}
 		}
 		if len(qs) > 300 {
